@@ -53,6 +53,7 @@ def tasks(tier):
         ts.append(Task('props.wire:run', name='C02/wire.driver-two-steps.%d' % K, fname='c02_driver_two_steps', kwargs=dict(K=K), timeout=600))
     for K in (1, 2, 3):
         ts.append(Task('props.wire:run', name='C02/wire.const-dispatch.%d' % K, fname='c02_const_dispatch', kwargs=dict(K=K), timeout=600))
+    ts.append(Task('props.wire:run', name='C02/wire.const-1d-two-steps.4', fname='c02_const_1d_two_steps', kwargs=dict(n=4), timeout=600))
     for n in (4, 5):
         ts.append(Task('props.wire:run', name='C02/wire.const-1d.%d' % n, fname='c02_const_1d', kwargs=dict(n=n), timeout=600))
     for fz in ((), (1,), (2,)):
@@ -244,7 +245,9 @@ MANIFEST_ENTRY = dict(
          'closed-form contracts; every one of the 15 per-axis kernels and 5 precomputed-coefficient kernels assembles, for an arbitrary '
          'line, exactly the documented conservative implicit system (drift 1/nu, selection with dominance, migration from every other '
          'population with the documented argument order, absorbing terms only on the all-zero / all-one corner lines, rhs phi/dt), solves it, '
-         'writes only its own line and stays in bounds. Round-off agreement, the numpy constant-parameter drivers and whole driver steps '
+         'writes only its own line and stays in bounds. Integration.py: one step and two consecutive steps of one_pop..five_pops (dt, influx and sweeps '
+         're-evaluated at each step\'s own time), all-scalar parameters handed to the constant integrators slot by slot (T and initial_t unchanged), '
+         'the 1-3-D constant integrators entry-wise equal to the kernel system. Round-off agreement, whole multi-step integrations '
          '(constant vs function-of-time parameters) are checked by the bounded dense-reference driver, not proved.',
     note='double=real, int=integer; no aliasing between distinct pointer parameters; pivots non-zero; exp uninterpreted; disjoint-line loop rule; '
          'Cython wrapper only checked for argument order (no Cython in the sandbox)',
